@@ -76,7 +76,7 @@ func c02prop(r *simkit.Run) *rrWorld {
 	removed := map[string]bool{}
 
 	startOp := func() *rrOp {
-		kinds := []string{"upsert", "upsert", "upsert-w", "upsert-w", "upsert-bad", "remove", "remove", "next", "next", "serve", "serve", "serve-mut", "servers", "weight"}
+		kinds := []string{"upsert", "upsert", "upsert-w", "upsert-w", "upsert-bad", "upsert-partly-bad", "remove", "remove", "next", "next", "serve", "serve", "serve-mut", "servers", "weight"}
 		if sticky {
 			kinds = append(kinds, "serve-sticky", "serve-sticky", "serve-sticky-mut")
 		}
@@ -96,6 +96,11 @@ func c02prop(r *simkit.Run) *rrWorld {
 				wt = 1 // in fine mode "is it new?" depends on the interleaving; keep the op unambiguous
 			}
 			return w.opUpsert(u, true, wt)
+		case "upsert-partly-bad":
+			if fine {
+				return w.opUpsert(mustURL(pick()), true, -1) // the partial effect is only reconciled in coarse mode
+			}
+			return w.opUpsertPartlyBad(mustURL(pick()), rapid.IntRange(1, 5).Draw(rt, "weight"))
 		case "upsert-bad":
 			// an update the balancer must refuse (negative weight): it has to fail and change nothing
 			return w.opUpsert(mustURL(pick()), true, -rapid.IntRange(1, 3).Draw(rt, "neg-weight"))
@@ -135,6 +140,9 @@ func c02prop(r *simkit.Run) *rrWorld {
 			if !op.done {
 				r.Fail("no-return", "%s did not return", where)
 			}
+			if op.kind == "upsert-partly-bad" {
+				w.adoptAfterPartlyBad(op)
+			}
 			w.applyAdminToModel(op)
 			w.applyCoarse(op, where)
 			if op.kind == "remove" {
@@ -153,6 +161,8 @@ func c02prop(r *simkit.Run) *rrWorld {
 			}
 			// rotation bookkeeping
 			switch op.kind {
+			case "upsert-partly-bad":
+				fresh = "" // the weights may have changed: the rotation length is no longer the one computed at the add
 			case "upsert", "remove":
 				fresh = ""
 				if op.kind == "upsert" && !strings.Contains(before, op.key+"=") {
